@@ -271,6 +271,14 @@ func monC11(c *drv.Ctx) {
 		r := cs.R
 		msg := genFieldStr(r)
 		tid := gen.I32(r)
+		if r.Intn(8) == 0 {
+			// a message that happens to equal the stock text of some type id (possibly its own)
+			tid = int32(r.Intn(12))
+			msg = thrift.NewApplicationException(int32(r.Intn(12)), "").Error()
+			if r.Intn(2) == 0 {
+				msg = thrift.NewApplicationException(tid, "").Error()
+			}
+		}
 		orig := thrift.NewApplicationException(tid, msg)
 		fail := func(check, m string, a ...interface{}) {
 			cs.Fail(check, M{"struct": "ApplicationException"}, M{"type_id": tid, "msg_len": len(msg), "message": fmt.Sprintf(m, a...)})
@@ -311,8 +319,31 @@ func monC11(c *drv.Ctx) {
 	})
 
 	// ---- nil receivers, absent fields ----
-	c.Stage("nil-and-absent", 6, true, func(cs *drv.Case) {
+	c.Stage("nil-and-absent", 8, true, func(cs *drv.Case) {
 		switch cs.Idx {
+		case 6, 7: // more than 2^16 map entries
+			n := 65536 + 5 + int(cs.Idx)
+			extra := make(map[string]string, n)
+			for i := 0; i < n; i++ {
+				extra[fmt.Sprintf("k%06d", i)] = fmt.Sprintf("%d", i%10)
+			}
+			var codec thrift.FastCodec
+			var dec func([]byte) (int, error, map[string]string)
+			if cs.Idx == 6 {
+				codec = &base.Base{LogID: "l", Extra: extra}
+				dec = func(b []byte) (int, error, map[string]string) { q := base.NewBase(); n, e := q.FastRead(b); return n, e, q.Extra }
+			} else {
+				codec = &base.BaseResp{StatusMessage: "m", StatusCode: 3, Extra: extra}
+				dec = func(b []byte) (int, error, map[string]string) { q := base.NewBaseResp(); n, e := q.FastRead(b); return n, e, q.Extra }
+			}
+			bl := codec.BLength()
+			wire := make([]byte, bl)
+			wn := codec.FastWriteNocopy(wire, nil)
+			rn, err, got := dec(wire)
+			if wn != bl || err != nil || rn != bl || !strMapEq(got, extra) {
+				cs.Fail("big-map-roundtrip", M{"struct": cs.Idx == 6}, M{"entries": n, "blength": bl, "written": wn, "read": rn, "err": errString(err), "decoded_entries": len(got)})
+			}
+			cs.C.Obs("maps with more than 65536 entries", 1)
 		case 0:
 			var p *base.Base
 			b := []byte{0xAA, 0xBB}
